@@ -11,7 +11,7 @@ import ast
 from ..core import rule, AnalysisError
 from ..engine import flow, cfg as cfgmod
 from ..engine import pattern as P
-from ..engine.facts import dotted, const, src, walk_func, enclosing_stmt
+from ..engine.facts import ancestors, dotted, const, src, walk_func, enclosing_stmt
 from . import skeletons as sk
 from .common import calls, contains, pn, access_paths, assigned_from, branch_paths, resolve, resolve_deep
 from .common import _fold_not as _fold
@@ -50,9 +50,17 @@ def block_guard(ctx):
             ctx.check(ok, "named", "mako/codegen.py (visitBlockTag)", "named block call: %s\n%s" % (why, s.source), "guarded by 'no parent or parent lacks the block', dispatched through context['self'], **pageargs forwarded")
     vb = db.func("codegen._GenerateRenderMethod.visitBlockTag")
     fm = [x for x in walk_func(vb) if isinstance(x, ast.BinOp) and isinstance(x.left, ast.Constant) and "hasattr(context._data['parent']" in str(x.left.value)]
-    fw = P.has(vb, "$n = %s.get_argument_expressions(as_call=True)\n$n += ['**pageargs']\n...\nself.printer.writeline($f %% (%s.funcname, ','.join($n)))\n..." % (pn(vb, 1), pn(vb, 1)))
+    nd = pn(vb, 1)
+    fw = P.has(vb, "$n = %s.get_argument_expressions(as_call=True)\n$n += ['**pageargs']\n...\nself.printer.writeline($f %% (%s.funcname, ','.join($n)))\n..." % (nd, nd))
+    if not fw:
+        # any spelling: the list joined into the emitted call is the block's argument expressions (as a call) followed by **pageargs
+        for j_ in [c_ for c_ in walk_func(vb) if isinstance(c_, ast.Call) and P.matches(c_, "','.join($n)")]:
+            v_ = resolve_deep(vb, j_.args[0], 2)
+            if P.matches(v_, "%s.get_argument_expressions(as_call=True) + ['**pageargs']" % nd):
+                par = [a_ for a_ in ancestors(j_) if isinstance(a_, ast.BinOp) and isinstance(a_.op, ast.Mod) and isinstance(a_.left, ast.Constant) and "context['self']" in str(a_.left.value)]
+                fw = bool(par)
     ctx.check(bool(fw), "forwards-pageargs", db.where(vb), "the block call does not forward **pageargs", "nameargs += ['**pageargs']")
-    ctx.check(bool(fm) and src(fm[0].right) == "node.funcname", "guard-names-block", db.where(vb), "the guard tests another attribute than the block's own name", "hasattr(parent, <block name>)")
+    ctx.check(bool(fm) and src(resolve_deep(vb, fm[0].right, 2)) == nd + ".funcname", "guard-names-block", db.where(vb), "the guard tests another attribute than the block's own name", "hasattr(parent, <block name>)")
     # named blocks are emitted as top-level render_<name> callables taking **pageargs
     init = db.func("codegen._GenerateRenderMethod.__init__")
     ctx.check(P.has(init, "if $n.is_block and not $n.is_anonymous:\n    $a += ['**pageargs']"), "block-callable-pageargs", db.where(init), "named block callables do not accept **pageargs", "render_<block>(context, **pageargs)")
@@ -119,7 +127,7 @@ def getattr_order(ctx):
         kp = pn(fn, 1)
         own_test = own_test % kp if own_test else None
         # decisions of the method, however its if/elif/else or guard clauses are spelled
-        paths = branch_paths(fn.body)
+        paths = branch_paths(fn.body, fn=fn)
         want = [kp + " in self.callables"] + ([own_test] if own_test else []) + ["self.inherits"]
         miss = [p for p in paths if isinstance(p.exit, ast.Raise)]
         ctx.check(bool(miss) and all("AttributeError" in src(p.exit) for p in miss), "miss:" + q.split(".")[1], db.where(fn), "a missing member does not raise AttributeError", "AttributeError")
@@ -141,7 +149,7 @@ def getattr_order(ctx):
                         return vals.get(rv.id, rv) if isinstance(rv, ast.Name) else rv
             return None
         inh = value_on("self.inherits")
-        ctx.check(inh is not None and P.matches(inh, "getattr(self.inherits, %s)" % kp), "delegates:" + q.split(".")[1], db.where(fn), "inherited members are not fetched from self.inherits", "getattr(self.inherits, key)")
+        ctx.check(inh is not None and P.matches(resolve_deep(fn, inh, 2), "getattr(self.inherits, %s)" % kp), "delegates:" + q.split(".")[1], db.where(fn), "inherited members are not fetched from self.inherits", "getattr(self.inherits, key)")
         if own_test:
             ov = value_on(own_test)
             okb = ov is not None and (P.matches(ov, "functools.partial($c, self.context)"))
